@@ -64,6 +64,16 @@ def mk(prog, oracle_state):
     def ext_hook(dotted, args, kw, n):
         if dotted.endswith('VerifyKey'):
             return VerifyKeyModel(oracle_state, args[0] if args else kw.get('key'))
+        if dotted.split('.')[-1] == 'crypto_sign_open' and len(args) == 2:
+            # the libsodium binding on the combined form signature || message: the same oracle, the first 64 bytes are the signature
+            whole = Rope.of(it, args[0])
+            if whole is None:
+                raise Fail('crypto_sign_open of a byte string of unknown layout')
+            if whole.n < 64:
+                raise RaiseEx('BadSignatureError', 'signed message shorter than a signature')
+            sig, msg = whole.cut(it, 0, 64).simplify(), whole.cut(it, 64, whole.n).simplify()
+            verify = VerifyKeyModel(oracle_state, args[1]).abs_attr(it, 'verify', n)
+            return verify.fn(it, [msg, sig], {}, n)
         return None
     it.ext_hook = ext_hook
     return it
